@@ -1199,7 +1199,7 @@ pub open spec fn write_frame(old: World, fin: World, base: PathV, name: Seq<u8>,
         '\n            requires\n                old(w).inv(),\n                dirent.dir() == pbv(*old(temp)),\n'
         '                is_temp_dir_of(*old(w), dirent.dir()),\n                single_component(dirent.name()),\n'
         '            ensures\n                final(w).inv(),\n                final(w).kept(*old(w)) && final(w).now == old(w).now && final(w).listed == old(w).listed,\n'
-        '                pbv(*final(temp)) == pbv(*old(temp)),\n'
+        '                pbv(*final(temp)) == pbv(*old(temp)),   // @L C17 C02 C16:the-scratch-path-names-the-temp-directory-again-after-every-item\n'
         '                final(w).steps <= old(w).steps + 2 * (2) && final(w).opens == old(w).opens && final(w).published == old(w).published,\n'
         '                final(w).dirs == old(w).dirs && final(w).inodes == old(w).inodes,\n'
         '                final(w).files == old(w).files || (final(w).files == old(w).files.remove(child(dirent.dir(), dirent.name())) '
